@@ -24,6 +24,12 @@ ASSUMPTIONS = ["the finite-difference oracle perturbs a column by a dyadic step 
 VARS = ["a", "b", "c", "d", "e"]
 
 
+def col_label(term):
+    """the column of a term is named after its non-literal factors (a term of literals only is the intercept column)"""
+    names = [fc.expr for fc in term.factors if not fc.expr.replace(".", "", 1).isdigit()]
+    return ":".join(names) if names else "Intercept"
+
+
 def run(ctx: Ctx):
     import numpy as np
     import pandas as pd
@@ -40,6 +46,10 @@ def run(ctx: Ctx):
                 seen.add(frozenset(t))
                 terms.append(list(t))
         intercept = rng.random() < 0.7
+        # literal scalings are factors too: d(2.5:a)/da = 2.5
+        for t in terms:
+            if rng.random() < 0.25:
+                t.insert(rng.randrange(len(t) + 1), rng.choice(["2", "0.5", "3", "2.5", "4"]))
         f = ("1 + " if intercept else "0 + ") + " + ".join(":".join(t) for t in terms)
         wrt = [rng.choice(VARS + ["zz"]) for _ in range(rng.choice([1, 1, 1, 2, 2, 3]))]
         F = Formula(f)
@@ -93,14 +103,14 @@ def run(ctx: Ctx):
                 ctx.fail(f"materializing the derivative of {f!r} w.r.t. {wrt}: {type(e).__name__}: {e}", rp)
                 continue
             for t, dt in zip(F, D):
-                label = repr(t) if repr(t) != "1" else "Intercept"
+                label = col_label(t)
                 fd = ((pert[label] - base[label]) / h).tolist()
                 dl = repr(dt)
                 if dl == "0":
                     if any(x != 0 for x in fd):
                         ctx.fail(f"term {t!r} has a zero derivative but a non-zero finite difference", rp)
                     continue
-                dlabel = "Intercept" if dl == "1" else dl
+                dlabel = col_label(dt)
                 if dlabel not in dnames:
                     ctx.fail(f"the non-zero derivative term {dl!r} of {t!r} has no column in the materialized derivative {dnames}", rp)
                     continue
